@@ -404,7 +404,10 @@ fn synth(rng: &mut StdRng, idx: usize, blocks: u64, now: u64) -> Source {
         }
     }
     // ---- metadata: the pre-0.6 way (one unchecksummed copy) or as 0.6 rewrites a legacy store
-    let size = blocks * BLK as u64;
+    // the size recorded at creation: the file may have been grown since (the store takes the file length,
+    // it never rewrites this field of a legacy device) - records beyond the recorded size are records
+    let size = if rng.random_range(0..3) == 0 { (17 + rng.random_range(0..(blocks - 17) / 2)) * BLK as u64 } else { blocks * BLK as u64 };
+    if size < blocks * BLK as u64 { s.feat("grown_file"); }
     let recs = s.gens.gens.len() as u64;
     if v3_source || rng.random_bool(0.5) {
         let g = rng.random_range(1..20u64) * 2;
